@@ -798,7 +798,7 @@ func (env *ExprEnv) index(x, i TV) TV {
 		if env.heapNow() == nil {
 			fail("heap access in pure context")
 		}
-		return env.typed(fmt.Sprintf("(select (select %s (sl_arr %s)) %s)", v.heapGet(env.heapNow(), arr), x.T, v.iadd(fmt.Sprintf("(sl_off %s)", x.T), i.T)), sl.Elem())
+		return env.typed(v.sliceElem(v.heapGet(env.heapNow(), arr), v.sortOf(sl.Elem()), x.T, i.T), sl.Elem())
 	}
 	if x.Sort == "Str" {
 		i = env.coerce(i, types.Typ[types.Int], v.idx())
@@ -1150,7 +1150,7 @@ func (env *ExprEnv) call(e *ast.CallExpr) TV {
 		}
 		k := env.coerce(env.eval(e.Args[1]), mt.Key(), v.sortOf(mt.Key()))
 		dom, _ := v.mapArrays(mt)
-		return TV{T: fmt.Sprintf("(select (select %s %s) %s)", v.heapGet(env.heapNow(), dom), m.T, k.T), Ty: types.Typ[types.Bool], Sort: "Bool"}
+		return TV{T: fmt.Sprintf("(and (not (= %s 0)) (select (select %s %s) %s))", m.T, v.heapGet(env.heapNow(), dom), m.T, k.T), Ty: types.Typ[types.Bool], Sort: "Bool"}
 	case "calls", "lastnonnil":
 		// calls(f): number of invocations of function value f so far (ghost trace)
 		f := env.eval(e.Args[0])
@@ -1474,6 +1474,9 @@ func (env *ExprEnv) callMacro(p *PureFn, args []ast.Expr) TV {
 			fail("predicate %s: unknown parameter type %s", p.Name, p.Params[i].Type)
 		}
 		x := env.coerce(env.eval(a), pt, v.ghostSort(pt))
+		if x.Sort != v.ghostSort(pt) {
+			fail("predicate %s: argument %d has sort %s, want %s (%s)", p.Name, i, x.Sort, v.ghostSort(pt), p.Params[i].Type)
+		}
 		vars[p.Params[i].Name] = TV{T: x.T, Ty: pt, Sort: x.Sort}
 	}
 	sub := &ExprEnv{v: v, vars: vars, snap: env.snap, old: env.old, inOld: env.inOld, pkg: ppkg, reach: env.reach, what: "predicate " + p.Name}
